@@ -32,8 +32,8 @@ ASSUMPTIONS = [
     "on every object class used, not proved",
     "the entry-point programs of GSV/Model/Heap.lean are hand-written; they are tied to the code by the observed mutation and "
     "aliasing pattern of every output, and the in-place sites of the package are re-translated from the source on every run",
-    "compiled kernels, scipy (curve_fit, cdist, pinv) and user callables (mean/trend/drift functions, transform functions) "
-    "are assumed not to write into the arrays they are given",
+    "scipy (curve_fit, cdist, pinv/inv) and user callables (mean/trend/drift functions, transform functions) are assumed not to "
+    "write into the arrays they are given; the compiled kernels declare every array parameter `const` (checked on the .pyx text)",
     "python containers (dict/list arguments such as curve_fit_kwargs) are outside the statement, which is about arrays",
 ]
 TRUSTED_EXTRA = ["python ast and the syntax-directed translation of in-place sites into heap programs (vlib/props/C20.py)"]
@@ -883,6 +883,11 @@ NP_ASARRAY = {"asarray", "asanyarray", "ascontiguousarray", "asfortranarray", "r
 NP_VIEW = {"atleast_1d", "atleast_2d", "atleast_3d", "ravel", "squeeze", "swapaxes", "transpose", "moveaxis", "rollaxis",
            "expand_dims", "broadcast_to", "broadcast_arrays", "real", "imag", "diagonal", "diag", "flip", "fliplr", "flipud", "rot90",
            "getmaskarray", "getmask", "getdata", "split", "array_split", "hsplit", "vsplit", "nditer", "ndenumerate", "flatiter"}
+NP_UFUNC2 = {"add", "subtract", "multiply", "divide", "true_divide", "floor_divide", "power", "maximum", "minimum", "fmax", "fmin", "mod",
+             "remainder", "logical_and", "logical_or", "logical_xor", "arctan2", "hypot", "copysign", "greater", "less", "equal"}
+NP_UFUNC1 = {"exp", "expm1", "log", "log1p", "log2", "log10", "sqrt", "square", "abs", "absolute", "fabs", "negative", "sign", "sin", "cos",
+             "tan", "arcsin", "arccos", "arctan", "sinh", "cosh", "tanh", "floor", "ceil", "rint", "trunc", "isnan", "isfinite", "isinf",
+             "logical_not", "reciprocal", "invert", "conj"}
 NP_INPLACE_ARG0 = {"put", "place", "copyto", "putmask", "fill_diagonal", "put_along_axis", "shuffle"}
 VIEW_METHODS = {"ravel", "squeeze", "swapaxes", "transpose", "view", "diagonal", "byteswap", "newbyteorder", "get", "values", "items",
                 "pop", "setdefault", "popitem", "__getitem__", "harden_mask", "soften_mask", "unshare_mask", "shrink_mask"}
@@ -1248,6 +1253,14 @@ class Tr:
             full = self.imp[root][1] + d[len(root):]
             if full.startswith("numpy"):
                 a0 = args[0] if args else self.scalar()
+                extra = len(args) - (2 if last in NP_UFUNC2 else 1 if last in NP_UFUNC1 else len(args))
+                if extra > 0:                                  # ufunc(a, b, out): positional output argument
+                    self.site("setItem", args[-extra], e, "positional out argument of a ufunc")
+                    return self.unary("view", args[-extra], True)
+                if last in ("nan_to_num", "masked_invalid", "masked_where", "masked_equal", "masked_values", "masked_less", "masked_greater") \
+                        and isinstance(kwnodes.get("copy"), ast.Constant) and kwnodes["copy"].value is False:
+                    self.site("setItem", args[-1] if last == "masked_where" and len(args) > 1 else a0, e, f"np.{last}(copy=False) works in place")
+                    return self.unary("view", a0, True)
                 if last in ("array", "masked_array") and ".ma." in full + ".":
                     return self.unary("maCopy" if const_true("copy") else "maArray", a0)
                 if full.endswith(".ma.asarray") or full.endswith(".ma.asanyarray"):
@@ -1744,14 +1757,46 @@ def classify_sites(sites):
     return sites, unresolved, stale
 
 
+def kernel_const_check(root=None):
+    """every array parameter of a python-visible function of the Cython kernels must be a `const` memoryview
+    (Cython then rejects any write through it at compile time); returns the offending parameters"""
+    import re
+    bad, n = [], 0
+    for d, _, files in sorted(os.walk(root or SRC)):
+        for f in sorted(files):
+            if not f.endswith(".pyx"):
+                continue
+            src = re.sub(r"#[^\n]*", "", open(os.path.join(d, f)).read())
+            heads = list(re.finditer(r"^def\s+(\w+)\s*\((.*?)\)\s*:", src, re.S | re.M))
+            for i, m in enumerate(heads):
+                nxt = re.search(r"^(def|cdef|cpdef)\s", src[m.end():], re.M)
+                body = src[m.end(): m.end() + nxt.start()] if nxt else src[m.end():]
+                for par in re.split(r",(?![^\[]*\])", m.group(2)):
+                    par = " ".join(par.split())
+                    if "[" not in par.split("=")[0]:
+                        continue
+                    n += 1
+                    if par.startswith("const "):
+                        continue
+                    name = par.split("=")[0].split()[-1]
+                    # not declared const: accept only if the body never assigns through it
+                    if re.search(r"\b" + re.escape(name) + r"\s*\[[^\]]*\]\s*([-+*/]?=)(?!=)", body) or \
+                            re.search(r"\b" + re.escape(name) + r"\s*\[\s*:\s*\]", body):
+                        bad.append(f"{f}::{m.group(1)}({par})")
+    return n, bad
+
+
 def static_scan(ctx=None, root=None):
     sites, stats = scan_package(root)
     sites, unresolved, stale = classify_sites(sites)
+    n_kp, bad_kp = kernel_const_check(root)
+    stats["kernel_array_parameters_const"] = f"{n_kp - len(bad_kp)}/{n_kp}"
     dist = {}
     for s in sites:
         dist[s["class"]] = dist.get(s["class"], 0) + 1
     dis = [{"what": f"static scan: unmodelled in-place site {s['rel']}::{s['func']}:{s['line']}: {s['text']} ({s['what']})",
             "site": {k: s[k] for k in ("rel", "func", "line", "text", "what", "params")}} for s in unresolved]
+    dis += [{"what": f"static scan: compiled kernel takes a writable view of a caller array: {b}"} for b in bad_kp]
     return {"sites": sites, "stats": stats, "distribution": dist, "disagreements": dis, "stale_table_rows": stale}
 
 
@@ -1980,6 +2025,7 @@ def history_search(ctx, n_hist, length):
     gs = _gs()
     rng = np.random.RandomState(ctx.seed + 2020)
     viol, ev = [], 0
+    stats = {}
     methods = ["binary", "discrete", "boxcox", "zinnharvey", "normal_force_moments", "normal_to_lognormal", "normal_to_uniform",
                "normal_to_arcsin", "normal_to_uquad", "function"]
     for h in range(n_hist):
@@ -2000,7 +2046,8 @@ def history_search(ctx, n_hist, length):
         trace = []
         objs = {"srf": srf, "krige": kr, "cond": cond}
         for t in range(length):
-            kind = str(rng.choice(["call", "call", "transform", "transform", "transform", "given", "krige", "cond", "newpos"]))
+            kind = str(rng.choice(["call", "call", "transform", "transform", "transform", "given", "krige", "cond", "newpos", "setcond",
+                                   "model"]))
             oname = str(rng.choice(["srf", "srf", "cond", "krige"]))
             o = objs[oname]
             names = list(o.field_names)
@@ -2017,6 +2064,42 @@ def history_search(ctx, n_hist, length):
                     elif kind == "newpos":
                         pos = _pos2(rng, 6)
                         held.add(f"{t}:pos", pos)
+                    elif kind == "setcond":
+                        ncp, ncv = _pos2(rng, 4), np.round(rng.uniform(4, 9, size=4))
+                        held.add(f"{t}:cond_pos", ncp)
+                        held.add(f"{t}:cond_val", ncv)
+                        if rng.rand() < 0.5:
+                            err = np.round(rng.uniform(1, 4, size=4)) / 64
+                            held.add(f"{t}:cond_err", err)
+                            kr.set_condition(ncp, ncv, cond_err=err)
+                        else:
+                            kr.set_condition(ncp, ncv)
+                    elif kind == "model":
+                        what = str(rng.choice(["len_scale", "anis", "angles", "var", "len_scale_vec", "fit"]))
+                        step["what"] = what
+                        if what == "len_scale":
+                            model.len_scale = float(rng.choice([2.0, 3.0, 5.0]))
+                        elif what == "anis":
+                            a = np.array([float(rng.choice([0.5, 1.0, 2.0]))])
+                            held.add(f"{t}:anis", a)
+                            model.anis = a
+                        elif what == "angles":
+                            a = np.array([float(rng.choice([0.0, 0.5, 1.0]))])
+                            held.add(f"{t}:angles", a)
+                            model.angles = a
+                        elif what == "var":
+                            model.var = float(rng.choice([1.0, 2.0, 4.0]))
+                        elif what == "len_scale_vec":
+                            a = np.array([3.0, float(rng.choice([1.5, 3.0, 6.0]))])
+                            held.add(f"{t}:len_scale", a)
+                            model.len_scale = a
+                        else:
+                            xs = np.arange(1.0, 9.0)
+                            ys = np.round(2.0 * (1 - np.exp(-xs / 3.0)) * 16) / 16
+                            held.add(f"{t}:x", xs)
+                            held.add(f"{t}:y", ys)
+                            model.fit_variogram(xs, ys, nugget=False)
+                        kr.set_condition()
                     elif kind == "given":
                         a = np.round(rng.uniform(1, 4, size=6) * 2) / 2
                         held.add(f"{t}:given", a)
@@ -2050,9 +2133,16 @@ def history_search(ctx, n_hist, length):
                         held.add(f"{t}:{oname}.transform({meth})", r)
             except Exception as e:   # noqa: BLE001 - invalid steps are part of the stream
                 step["error"] = type(e).__name__
+            k = step["kind"] + (":" + step["error"] if "error" in step else "")
+            stats[k] = stats.get(k, 0) + 1
             for ob_name, ob in objs.items():
                 for fn in list(ob.field_names):
                     held.add(f"{t}:{ob_name}.{fn}", ob[fn])
+            for lab, val in (("krige.cond_pos", kr.cond_pos), ("krige.cond_val", kr.cond_val), ("krige.cond_ext_drift", kr.cond_ext_drift),
+                             ("model.anis", model.anis), ("model.angles", model.angles), ("model.len_scale_vec", model.len_scale_vec),
+                             ("srf.pos", srf.pos), ("krige.pos", kr.pos)):
+                if isinstance(val, np.ndarray):
+                    held.add(f"{t}:{lab}", val)
             trace.append(step)
             ev += 1
             ch = held.changed()
@@ -2061,6 +2151,7 @@ def history_search(ctx, n_hist, length):
                              "what": f"step {t} ({step}) changed earlier arrays {ch[:4]}",
                              "case": {"options": opt.get("name"), "trace": trace[-6:]}})
                 break
+    ctx.c20_history_stats = stats
     return ev, viol
 
 
@@ -2252,7 +2343,7 @@ def search(ctx, deep=False):
     for d in os.listdir(tempfile.gettempdir()):
         if d.startswith("c20vtk"):
             shutil.rmtree(os.path.join(tempfile.gettempdir(), d), ignore_errors=True)
-    ev2, v2 = history_search(ctx, ctx.scale(40, 400) * (3 if deep else 1), ctx.scale(12, 25))
+    ev2, v2 = history_search(ctx, ctx.scale(40, 1500) * (3 if deep else 1), ctx.scale(14, 30))
     viol += v2
     seen, uniq = set(), []
     for v in viol:
@@ -2263,4 +2354,23 @@ def search(ctx, deep=False):
             "summary": f"{ev0} replayed findings; {n} calls of the real API over entry points x roles x layouts {layouts} x options with byte "
                        f"snapshots of every caller array and stored result (read-only inputs make silent writes raise); {ev2} steps of random "
                        f"store/transform/krige/condition histories in which every array ever passed, returned or stored must keep its bytes",
-            "errors_of_extra_calls": errs}
+            "errors_of_extra_calls": errs, "history_steps": getattr(ctx, "c20_history_stats", {})}
+
+
+def replay(ctx, payload):
+    """re-run the cases named by the violation keys of a replay file; exit status 1 if one still fails"""
+    keys = {v.get("key", "") for v in payload.get("violations", [])}
+    rng = np.random.RandomState(ctx.seed + 200)
+    _, viol = directed(ctx)
+    for c in all_cases(rng, ["ro", "fortran", "alias", "strided", "i64"], True):
+        if not any(k.startswith(f"aliasing:{c.key}:") for k in keys):
+            continue
+        mutated, outs, err, mem = c.observe()
+        for m in mutated:
+            viol.append({"key": f"aliasing:{c.key}:{m}", "what": f"{c.entry} changed '{m}'", "case": c.describe()})
+    hit = [v for v in viol if v["key"] in keys] or viol
+    for v in hit[:5]:
+        print("REPRODUCED", v["key"], "-", v["what"])
+    if not hit:
+        print("not reproduced on the current tree")
+    return 1 if hit else 0
